@@ -20,7 +20,7 @@ ANCHORS = ["TrajectoryPrediction._create_occupancy_set", "GoalRegion.is_reached"
            "LaneletNetwork.__getstate__", "ProtobufFileWriter.write_to_file", "XMLFileWriter.write_to_file",
            "MPRenderer.draw_scenario", "MPRenderer.draw_lanelet_network", "Scenario.occupancies_at_time_step",
            "LaneletNetwork.find_lanelet_by_position", "LaneletNetwork.map_obstacles_to_lanelets"]
-REQUIRED = ["registry-asked-at-steps-without-entries", "draw.with-sign-symbols", "op.occupancy_at_time", "op.state_at_time", "op.occupancies_at_time_step", "op.find_lanelet_by_position",
+REQUIRED = ["derived-network-edited-afterwards", "registry-asked-at-steps-without-entries", "draw.with-sign-symbols", "op.occupancy_at_time", "op.state_at_time", "op.occupancies_at_time_step", "op.find_lanelet_by_position",
             "op.find_lanelet_by_shape", "op.map_obstacles_to_lanelets", "op.light_state", "op.is_reached",
             "op.goal_reached", "op.eq", "op.hash", "op.copy", "op.deepcopy", "op.pickle", "op.str", "op.draw",
             "op.export_xml", "op.export_pb", "state-without-orientation", "goal-lanelets.dict",
@@ -164,6 +164,17 @@ def run(ctx):
                 _LN.create_from_lanelet_network(net, None, {rng.choice(list(_LT))})
                 _LN.create_from_lanelet_network(net)
                 _LN.create_from_lanelet_list(net.lanelets[:2])
+                # ... and the derived networks are WORKED ON afterwards (moved, lanelets of them given a sign reference):
+                # they are networks of their own, whichever way they were derived
+                for d_ in (_LN.create_from_lanelet_list(net.lanelets[:2], cleanup_ids=False),
+                           _LN.create_from_lanelet_list(net.lanelets[:2]), _LN.create_from_lanelet_network(net)):
+                    for la_ in d_.lanelets[:2]:
+                        la_.add_traffic_sign_to_lanelet(424242)
+                    try:
+                        d_.translate_rotate(np.array([50.0, 20.0]), 0.3)
+                    except ValueError:
+                        pass  # (lanelets with elevation cannot be moved)
+                ctx.feature("derived-network-edited-afterwards")
         elif op == "light_state":
             for tl in net.traffic_lights:
                 tl.get_state_at_time_step(t)
